@@ -29,7 +29,8 @@ RULE = (
 )
 BOUNDS = {
   "quick": "12 transmissions x 6 dyntypes x 4 gaintypes x 4 biastypes x 2 limit sets x 16 flag assignments; "
-  "dcmotor shortcut family (11 configs x 4 transmissions x 2); 9 input worlds x 2 CLAMPCTRL",
+  "(tendon transmissions with limits are split by forcelimited); dcmotor shortcut family (11 configs x 4 transmissions x 2) + "
+  "<dcmotor input=none>; actuator-level damping/armature family (4 configs x 2 transmissions); 9 input worlds x 2 CLAMPCTRL",
   "thorough": "quick + all ordered pairs of the 45 non-user (dyn,gain,bias) classes sharing a force-limited joint and a force-limited tendon",
 }
 ASSUMPTIONS = [
@@ -156,9 +157,11 @@ def _trn_attr(trn, v):
   }[trn]
 
 
-def _muscle_prm(v, kind):
+def _muscle_prm(v, kind, trn=""):
   # range0 range1 force scale lmin lmax vmax fpmax fvmax ; force<0 -> scale/acc0 (odd variants)
   force = (4.0, -1.0, 2.5, -1.0)[v]
+  if trn == "body":
+    force = abs(force) + 2.0  # acc0 of an adhesion actuator is 0 (no contacts at compile time): scale/acc0 would be unbounded
   scale = (200.0, 30.0, 200.0, 12.0)[v]
   return f"0.75 1.05 {force:g} {scale:g} 0.5 1.6 1.5 {1.3 if kind == 'gain' else 0.9:g} 1.2"
 
@@ -175,13 +178,13 @@ def _general(trn, dyn, gain, bias, flags, v, name):
   elif gain == "affine":
     a += f' gainprm="{("1.2 0.8 -0.5", "-0.9 0.4 0.7", "2.1 -0.6 0.3", "0.6 1.1 -0.9")[v]}"'
   elif gain == "muscle":
-    a += f' gainprm="{_muscle_prm(v, "gain")}"'
+    a += f' gainprm="{_muscle_prm(v, "gain", trn)}"'
   elif gain == "user":
     a += f' gainprm="{(1.2, -0.9, 2.1, 0.6)[v]:g}"'
   if bias == "affine":
     a += f' biasprm="{("0.3 -0.9 0.4", "-0.2 0.7 -0.6", "0.5 0.4 0.8", "-0.4 -1.2 0.3")[v]}"'
   elif bias == "muscle":
-    a += f' biasprm="{_muscle_prm(v, "bias")}"'
+    a += f' biasprm="{_muscle_prm(v, "bias", trn)}"'
   elif bias == "user":
     a += ' biasprm="0.3 -0.9 0.4"'
   if gain == "muscle" or bias == "muscle":
